@@ -92,7 +92,8 @@ impl World {
             Caught::Ok(s) => s,
             Caught::Injected | Caught::Stopped => false,
             Caught::Unexpected(msg) => {
-                self.violate("C10.panic", format!("{call:?} on arena {a} (phase {}) panicked: {msg}", phase_name(p)));
+                // a collection call that panics did not end in any allowed phase either (C08)
+                self.violate_with("C10.panic", &["C08.transition"], format!("{call:?} on arena {a} (phase {}) panicked instead of returning: {msg}", phase_name(p)));
                 return;
             }
         };
@@ -147,8 +148,14 @@ impl World {
                 _ => false,
             };
             if some != expect_some {
-                self.violate("C08.option", format!("{call:?} from {} returned {} (ended {})", phase_name(p), if some { "Some" } else { "None" }, phase_name(post)));
-                return;
+                let d = format!("{call:?} from {} returned {} (ended {})", phase_name(p), if some { "Some" } else { "None" }, phase_name(post));
+                if some {
+                    // let the finalizer look at what was handed out before the run stops
+                    self.violate_deferred("C08.option", d);
+                } else {
+                    self.violate("C08.option", d);
+                    return;
+                }
             }
         }
         // ---- C09: debt-driven calls pay their debt or stop where documented
@@ -623,8 +630,62 @@ impl World {
     // --------------------------------------------------------------------------------------------
     // dispatcher
 
+    /// Observables of every arena other than `acting` (C20 isolation frame).
+    fn frame(&self, acting: Option<Aid>) -> Vec<(Aid, u8, u64, usize, i64, u64, usize)> {
+        let mut v = vec![];
+        if self.live_arenas().len() < 2 {
+            return v;
+        }
+        for b in self.live_arenas() {
+            if Some(b) == acting {
+                continue;
+            }
+            let m = self.metrics(b);
+            let h = self.snapshot(b).map(|s| self.state_hash(b, &s)).unwrap_or(0);
+            let drops = self.sh.arena_objs(b).filter(|(_, o)| o.destructed).count();
+            v.push((b, phase_code(self.phase(b)), m.allocation_debt().to_bits(), m.total_gc_count(), seam::live_gc_blocks(b as u16), h, drops));
+        }
+        v
+    }
+
     pub fn exec_event(&mut self, ev: &mut Event, g: GenRef<'_>) {
         self.stats.events += 1;
+        let acting: Option<Aid> = match ev {
+            Event::Mutate { a, .. } | Event::Collect { a, .. } | Event::SetPacing { a, .. } | Event::AdjustDebt { a, .. } | Event::NewArena { a, .. } | Event::DropArena { a } => Some(*a),
+            Event::Handle { h, .. } => self.handles.get(h).map(|x| x.arena),
+            Event::ArmTraceFault { .. } => None,
+        };
+        let before = self.frame(acting);
+        self.exec_event_inner(ev, g);
+        if self.ok() && !before.is_empty() {
+            let after = self.frame(acting);
+            for x in &before {
+                if let Some(y) = after.iter().find(|y| y.0 == x.0) {
+                    if x != y {
+                        let what = if x.1 != y.1 {
+                            "phase"
+                        } else if x.2 != y.2 {
+                            "allocation_debt"
+                        } else if x.3 != y.3 {
+                            "total_gc_count"
+                        } else if x.4 != y.4 {
+                            "live Gc blocks"
+                        } else if x.6 != y.6 {
+                            "destructed values"
+                        } else {
+                            "collector state (colours / lists / queues)"
+                        };
+                        self.ev_index -= 1;
+                        self.violate("C20.frame", format!("an event on arena {:?} changed the {what} of arena {}", acting, x.0));
+                        self.ev_index += 1;
+                        break;
+                    }
+                }
+            }
+        }
+    }
+
+    fn exec_event_inner(&mut self, ev: &mut Event, g: GenRef<'_>) {
         match ev {
             Event::Mutate { a, cb, ops } => self.ev_mutate(*a, *cb, ops, g),
             Event::Collect { a, debt, call, then } => self.ev_collect(*a, *debt, *call, then, g),
@@ -640,6 +701,7 @@ impl World {
             self.check_metrics(a);
             self.c09_check_sleep(a);
         }
+        self.promote_pending();
         self.ev_index += 1;
     }
 }
